@@ -428,11 +428,16 @@ def main(tier):
     # ---- the aggregates are functions of their arguments alone: same bits in another call order, with immediate repetition, without an
     # error slot, and in a host that traps floating-point exceptions (every Z incl. those without data, where a part fails) ------------
     Zi, Ei, Ti = [x.ravel() for x in np.meshgrid(np.arange(0, 122), [0.5, 10.0, 100.0, 900.0], [0.0, 0.7, float(np.pi)], indexing='ij')]
-    Z2, E2 = [x.ravel() for x in np.meshgrid(np.arange(0, 122), [0.5, 10.0, 100.0, 900.0], indexing='ij')]
+    # (the energy list holds points inside every non-monotone step of the tables; 'last-argument-major' order visits all elements at one energy, so that
+    #  the look-up of one element's table comes right after the look-up of another element's table at the same abscissa)
+    from . import c02 as _c02
+    _hull = _c02.hull_energies()
+    st.info['energies_inside_non_monotone_steps'] = len(_hull)
+    Z2, E2 = [x.ravel() for x in np.meshgrid(np.arange(0, 122), [0.5, 10.0, 100.0, 900.0] + _hull, indexing='ij')]
     jobs = [(f, Zi, Ei, Ti) for f in ('DCS_Rayl', 'DCS_Compt', 'DCSb_Rayl', 'DCSb_Compt')] + \
            [(f, Zi, Ei, Ti, 0.3 + 0 * Ti) for f in ('DCSP_Rayl', 'DCSP_Compt', 'DCSPb_Rayl', 'DCSPb_Compt')] + \
            [(f, Z2, E2) for f in ('CS_Total', 'CSb_Total', 'CSb_Photo', 'CSb_Rayl', 'CSb_Compt')]
-    st.calls += execlib.independence(ck, 'c05', 'shipped', jobs, orders=('given', 'reversed', 'each-twice'))
+    st.calls += execlib.independence(ck, 'c05', 'shipped', jobs, orders=('given', 'reversed', 'last-argument-major', 'each-twice'))
     st.calls += execlib.independence(ck, 'c05', 'kissel', [(f, Z2, E2) for f in ('CS_Total_Kissel', 'CSb_Total_Kissel', 'CS_Photo_Total', 'CSb_Photo_Total')], orders=('given', 'each-twice'))
     # ---- did the run observe enough? ------------------------------------------------------------------------------
     need_shipped = ['CS_Total', 'CSb_Total', 'CSb_Photo', 'CSb_Rayl', 'CSb_Compt', 'CSb_FluorLine', 'CSb_FluorShell', 'DCS_Rayl', 'DCS_Compt',
